@@ -66,6 +66,18 @@ def gen(fam, r):
             c["epsilon"] = r.choice([0.0, 0.05, 0.2, 0.4, 0.6])
         if est == "ngram":
             c["ngram"] = r.choice([1, 2])
+        if r.random() < 0.4:
+            # growth-steering: many distinct cells against the smallest buffers, so that the accumulator must be re-allocated
+            vocab = r.choice([9, 14, 30])
+            c["docs"] = [coh.gen_tokens(r, vocab, r.choice([40, 90, 150]), zipf=False) for _ in range(r.randint(1, 3))]
+            c["radii"] = [r.choice([3, 5])] * len(c["radii"])
+            c["mem"] = r.choice(["1k", "1k", "2k"])
+            c["n_threads"] = r.choice([1, 1, 2, 4])
+            c["prune"], c["mask"], c["nullify"] = None, None, False
+            if est == "timed":
+                c["times"] = [[float(k) * 0.5 for k in range(len(d))] for d in c["docs"]]
+            if est == "multi":
+                c["mdocs"] = [[d[k : k + 2] for k in range(0, len(d), 2)] for d in c["docs"]]
         if r.random() < 0.35:
             toks = sorted(set(coh._flat_tokens(c)))
             keep = toks[: max(1, len(toks) - 1)] if r.random() < 0.5 else toks
